@@ -85,6 +85,8 @@ class Range(HeaderElement):
 			if (not start and not stop) or not __:
 				raise InvalidHeader(_(u'no range start/stop.'))
 			try:
+				if start and not start.isdigit() or stop and not stop.isdigit():
+					raise ValueError()
 				start = integer(start) if start else None
 				stop = integer(stop) if stop else None
 				if start and start < 0 or stop and stop < 0:
